@@ -359,7 +359,7 @@ def r3_2(ctx):
                 e[2][1] == ("agg", "move_generation::MoveGenerationMode", "AllMoves", ())
             ctx.ob("get_best_move:%s:def#%d" % (b.lname(v), nd), ok, b.where(loc),
                    "`%s = %s`; the root list must be generate_moves(<own board>, AllMoves, _)" % (b.lname(v), show_expr(e, b)[:90]))
-        ctx.floor("definitions of the root list", nd, 2)
+        ctx.floor("definitions of the root list", nd, 1)
 
 
 def _moves_empty_region(b, ex):
